@@ -17,7 +17,7 @@ type C04Case struct {
 	G       *Grammar `json:"g"`
 	In      string   `json:"in"`
 	MemoAll bool     `json:"memoAll"`
-	Interp  int      `json:"interp"` // 0: strict concatenation, 1: concatenation that skips EMPTY
+	Interp  int      `json:"interp"`           // 0: strict concatenation, 1: concatenation that skips EMPTY
 	PreLen  int      `json:"preLen,omitempty"` // > 0: the parsed file follows a file of that length
 }
 
@@ -138,7 +138,13 @@ func checkC04(ci interface{}, st *Stats) error {
 	if c.PreLen > 0 {
 		st.Class("file placed after another file")
 	}
-	if int(node.Pos()) != base || int(node.ReaderPos()) != base+len(in) {
+	trims := hasKind(g, KLTrim) || hasKind(g, KRTrim)
+	lead := 0 // whitespace a LeftTrim may skip before the first node
+	if trims {
+		st.Class("accepted, grammar with whitespace trimming")
+		lead, _, _, _ = judgeRun([]byte(in), 0, 2)
+	}
+	if int(node.Pos()) < base || int(node.Pos()) > base+lead || int(node.ReaderPos()) != base+len(in) {
 		return fmt.Errorf("root spans %d..%d, want 0..%d", int(node.Pos())-base, int(node.ReaderPos())-base, len(in))
 	}
 	// Sentence returns the sequence [result, EOF]; a root that is the result itself would satisfy
@@ -147,7 +153,7 @@ func checkC04(ci interface{}, st *Stats) error {
 	if rn, ok := node.(*ast.NonTerminalNode); ok && len(rn.Children()) == 2 && rn.Children()[1].Token() == "EOF" {
 		child = rn.Children()[0]
 	}
-	if !NewValidator(ref, base).Valid(g.Rules[0], child, 0) {
+	if !trims && !NewValidator(ref, base).Valid(g.Rules[0], child, 0) {
 		return fmt.Errorf("the returned tree is no derivation of N0: %s", RenderNode(child, base))
 	}
 	if int(child.ReaderPos()) != base+len(in) {
@@ -157,6 +163,15 @@ func checkC04(ci interface{}, st *Stats) error {
 	if tr.Capped || len(tr.T[0][0]) > 1 {
 		st.Class("accepted, ambiguous grammar")
 		st.NonTrivial()
+	}
+	if trims {
+		// the values are the terminals: the input without its whitespace
+		in = strings.Map(func(r rune) rune {
+			if r == ' ' || r == '\t' || r == '\n' || r == '\f' {
+				return -1
+			}
+			return r
+		}, in)
 	}
 	switch child.(type) {
 	case *ast.NonTerminalNode:
@@ -195,7 +210,10 @@ func init() {
 		Gen: func(t *rapid.T) interface{} {
 			o := genOptsC01()
 			o.Names = rapid.Bool().Draw(t, "names")
+			o.SeqOpts = rapid.IntRange(0, 2).Draw(t, "seqopts") == 1
+			o.RuleNames = rapid.IntRange(0, 3).Draw(t, "rulenames") == 1
 			o.Suppress = rapid.IntRange(0, 3).Draw(t, "suppress") == 0
+			o.RefTrims = rapid.IntRange(0, 3).Draw(t, "reftrims") == 0
 			if rapid.IntRange(0, 4).Draw(t, "extramemo") == 0 {
 				o.ExtraMemo = 4
 			}
@@ -206,6 +224,9 @@ func init() {
 			pre := 0
 			if rapid.IntRange(0, 3).Draw(t, "placed") == 0 {
 				pre = rapid.IntRange(1, 20).Draw(t, "preLen")
+				if rapid.IntRange(0, 9).Draw(t, "hugepre") == 4 {
+					pre = rapid.SampledFrom([]int{65533, 65534, 65536, 70000, 140000}).Draw(t, "hugeLen")
+				}
 			}
 			return &C04Case{G: g, In: GenInput(t, g, o), MemoAll: rapid.Bool().Draw(t, "memoAll"), Interp: rapid.IntRange(0, 1).Draw(t, "interp"), PreLen: pre}
 		},
